@@ -220,3 +220,13 @@ Lemma cache_stat_calls : forall c k,
   cache_step Misses c k = Ok (RInt (c_miss c), c, k) /\
   cache_step Snapshot c k = Ok (RStats (c_hits c) (c_miss c), c, k).
 Proof. intros. repeat split. Qed.
+
+(* the simple cache never drops an unexpired answer either (cleaning removes expired entries only) *)
+Lemma cache_live_present_c : forall interval t0 ds0 its g w key v,
+  mono its -> Forall cache_item its -> cache_reach interval t0 ds0 its g w ->
+  fst g key = Some v -> snd w < a_exp v -> dget (c_data (fst w)) key = Some v.
+Proof.
+  intros interval t0 ds0 its g w key v Hm Hc Hr Hi Hx.
+  destruct (cache_reach_inv _ _ _ _ _ _ Hm Hc Hr) as [HJ _].
+  destruct (CJ_out _ _ _ HJ _ _ Hi) as [H|H]; [exact H|lia].
+Qed.
